@@ -17,7 +17,9 @@ exe, err = vlib.build_harness(d, name, defs, src)
 assert exe, err
 out = os.environ.get("HRUN_OUT", "/tmp/hrun.out")
 with open(out, "w") as f:
-    subprocess.run([exe] + rest, stdout=f)
+    hr = subprocess.run([exe] + rest, stdout=f, stderr=subprocess.DEVNULL)
+if hr.returncode != 0:
+    print(f"HARNESS EXIT STATUS {hr.returncode} (crash/abort: output is truncated)")
 drv = os.path.join(vlib.LEAN, ".lake", "build", "bin", "crabdrv")
 with open(out) as f:
     r = subprocess.run([drv], stdin=f, stdout=subprocess.PIPE, text=True)
